@@ -87,11 +87,23 @@ Qed.
 (* ================================================================== Part 2 *)
 (* what decode may change: a pushed constant can come back as the earlier pool entry that Go's
    index map found equal to it (vgo_eq: only a float zero of the other sign is not identical) *)
-Definition instr_sim (i i' : instr) : Prop :=
-  i' = i \/ exists v w, i = IPush v /\ i' = IPush w /\ vgo_eq w v = true.
+Definition instr_simP (P : value -> Prop) (i i' : instr) : Prop :=
+  i' = i \/ exists v w, i = IPush v /\ i' = IPush w /\ vgo_eq w v = true /\ P w.
+Definition linstr_simP (P : value -> Prop) (a b : linstr) : Prop := instr_simP P (fst a) (fst b) /\ snd a = snd b.
+Definition code_simP (P : value -> Prop) (C C' : code) : Prop := Forall2 (linstr_simP P) C C'.
 
-Definition linstr_sim (a b : linstr) : Prop := instr_sim (fst a) (fst b) /\ snd a = snd b.
-Definition code_sim (C C' : code) : Prop := Forall2 linstr_sim C C'.
+Definition instr_sim : instr -> instr -> Prop := instr_simP (fun _ => True).
+Definition linstr_sim : linstr -> linstr -> Prop := linstr_simP (fun _ => True).
+Definition code_sim : code -> code -> Prop := code_simP (fun _ => True).
+
+Lemma instr_simP_mono (P Q : value -> Prop) i i' : (forall w, P w -> Q w) -> instr_simP P i i' -> instr_simP Q i i'.
+Proof. intros HPQ [->|[v [w [-> [-> [He Hp]]]]]]; [left; reflexivity|right; exists v, w; auto]. Qed.
+
+Lemma code_simP_mono (P Q : value -> Prop) C C' : (forall w, P w -> Q w) -> code_simP P C C' -> code_simP Q C C'.
+Proof.
+  intros HPQ. induction 1 as [|a b R R' [Hi Hl] _ IH]; constructor; [|exact IH].
+  split; [eapply instr_simP_mono; [exact HPQ|exact Hi]|exact Hl].
+Qed.
 
 Lemma simple_of_noarg i : ioperand i = NoArg -> simple_instr (iname i) = Some i.
 Proof. destruct i; cbn [ioperand]; intros H; try discriminate; try reflexivity. destruct ((t =? 0) || (t =? 1)); discriminate. Qed.
@@ -131,8 +143,9 @@ Qed.
 Lemma go_eq_str d s : const_go_eq d (str_const s) = true -> d = str_const s.
 Proof.
   destruct d as [v|n z|p]; cbn [const_go_eq str_const]; try discriminate.
-  destruct v; cbn [vgo_eq]; try discriminate. intros H. apply String.eqb_eq in H. subst. reflexivity.
-  destruct ptr; discriminate.
+  destruct v as [|vb|vn|vs|ve vl|ve|vk vt vm|vname vptr vfields|vt|vk vt|vname vt|vname vx|vd]; cbn [vgo_eq]; try discriminate.
+  - intros H. apply String.eqb_eq in H. subst. reflexivity.
+  - destruct vptr; discriminate.
 Qed.
 
 Lemma go_eq_call d name n : const_go_eq d (call_const name n) = true -> d = call_const name n.
@@ -150,7 +163,8 @@ Proof. destruct d as [w|m z|p]; cbn [const_go_eq]; try discriminate. intros H. e
 (* the operand decoder on the constant an instruction was assembled with *)
 Lemma operand_of_const i c k d :
   ioperand i = ConstArg c -> (d = c \/ const_go_eq d c = true) ->
-  exists i', instr_sim i i' /\ forall cs, nth_const cs k = Some d -> operand_instr cs (iname i) k = OpI i'.
+  exists i', instr_simP (fun w => d = CVal w) i i' /\
+             forall cs, nth_const cs k = Some d -> operand_instr cs (iname i) k = OpI i'.
 Proof.
   intros Hop Hd.
   destruct i; cbn [ioperand] in Hop; try discriminate; try (destruct ((t =? 0) || (t =? 1)); discriminate);
@@ -197,7 +211,7 @@ Qed.
 (* decoding the bytes of one assembled instruction, against any pool that extends the pool of
    the moment of its emission *)
 Lemma decode_step pool i bs pool' : enc_instr pool i = Some (bs, pool') ->
-  exists i', instr_sim i i' /\
+  exists i', instr_simP (fun w => In (CVal w) pool') i i' /\
   forall fuel more locs pos rest,
     decode_from (S fuel) (pool' ++ more) locs pos (bs ++ rest) =
     match decode_from fuel (pool' ++ more) locs (pos + Z.of_nat (List.length bs)) rest with
@@ -214,7 +228,8 @@ Proof.
     apply intern_spec in I. destruct I as [_ [Hk [d [Hn Hd]]]].
     assert (Hs : simple_instr (iname i) = None) by (apply simple_of_arg; congruence).
     destruct (operand_of_const i c k d E Hd) as [i' [Hsim Hop]].
-    exists i'. split; [exact Hsim|]. intros fuel more locs pos rest.
+    exists i'. split; [eapply instr_simP_mono; [|exact Hsim]; intros w ->; eapply nth_error_In; exact Hn|].
+    intros fuel more locs pos rest.
     cbn [decode_from app List.length encode16].
     rewrite Hb, Hs, encode16_value, (Hop _ (nth_const_app _ more _ _ Hk Hn)).
     replace (pos + Z.of_nat 3) with (pos + 3) by lia.
@@ -244,12 +259,10 @@ Proof.
     apply IH. intros q' m' Hin. apply (Hpre q' m'). right. exact Hin.
 Qed.
 
-Lemma instr_sim_refl i : instr_sim i i. Proof. left; reflexivity. Qed.
-
 Lemma asm_decode : forall its pool pos bs poolF locs,
   asm its pool pos = Some (bs, poolF, locs) ->
   (exists ext, poolF = pool ++ ext) /\
-  exists C', code_sim (items_code its) C' /\
+  exists C', code_simP (fun w => In (CVal w) poolF) (items_code its) C' /\
     forall more pre fuel, (forall q m, In (q, m) pre -> q < pos) -> (List.length bs <= fuel)%nat ->
       decode_from fuel (poolF ++ more) (pre ++ locs) pos bs = DOk C'.
 Proof.
@@ -266,7 +279,8 @@ Proof.
       destruct (decode_step _ _ _ _ En) as [i' [Hi' Hstep]].
       split; [exists (ext1 ++ ext); rewrite Hext, Hext1, app_assoc; reflexivity|].
       exists ((i', l) :: C'). split.
-      { cbn [items_code]. constructor; [split; [exact Hi'|reflexivity]|exact Hsim]. }
+      { cbn [items_code]. constructor; [split; [|reflexivity]|exact Hsim].
+        cbn [fst]. eapply instr_simP_mono; [|exact Hi']. intros w Hw. rewrite Hext. apply in_or_app. left. exact Hw. }
       intros more pre fuel Hpre Hfuel.
       assert (Hpos : (0 < List.length b1)%nat) by (rewrite Hlen; apply isize_pos).
       destruct fuel as [|fuel]; [rewrite app_length in Hfuel; lia|].
@@ -288,13 +302,21 @@ Lemma items_code_of_code C : items_code (items_of_code C) = C.
 Proof. unfold items_of_code. induction C as [|[i l] C IH]; cbn [map items_code fst snd]; [reflexivity|rewrite IH; reflexivity]. Qed.
 
 (* decode inverts the assembler, for every list of items *)
-Theorem decode_assemble_items its p :
-  assemble_items its = Some p -> exists C', decode p = DOk C' /\ code_sim (items_code its) C'.
+Lemma decode_assemble_itemsP its p :
+  assemble_items its = Some p ->
+  exists C', decode p = DOk C' /\ code_simP (fun w => In (CVal w) (p_consts p)) (items_code its) C'.
 Proof.
   unfold assemble_items. destruct (asm its [] 0) as [[[bs pool] locs]|] eqn:A; [|discriminate].
   intros H. injection H as <-. destruct (asm_decode _ _ _ _ _ _ A) as [_ [C' [Hsim Hdec]]].
   exists C'. split; [|exact Hsim]. unfold decode. cbn [p_bytes p_consts p_locs].
   specialize (Hdec [] [] (S (List.length bs))). rewrite app_nil_r in Hdec. apply Hdec; [intros q m []|lia].
+Qed.
+
+Theorem decode_assemble_items its p :
+  assemble_items its = Some p -> exists C', decode p = DOk C' /\ code_sim (items_code its) C'.
+Proof.
+  intros H. destruct (decode_assemble_itemsP _ _ H) as [C' [Hd Hs]]. exists C'. split; [exact Hd|].
+  eapply code_simP_mono; [|exact Hs]. auto.
 Qed.
 
 Theorem decode_assemble C p :
@@ -614,4 +636,200 @@ Theorem items_code_compile_program mapenv c e :
   items_code (compile_items_program mapenv c e) = compile_program mapenv c e.
 Proof.
   unfold compile_items_program, compile_program. rewrite items_code_app, items_code_compile. destruct c; reflexivity.
+Qed.
+
+(* ================================================================== Part 7 *)
+(* Go == on two floats of which neither is -0.0 is identity (FloatAxioms: eqb_spec, Prim2SF_inj) *)
+Lemma float_eqb_eq f g : PrimFloat.eqb f g = true -> negzero f = false -> negzero g = false -> f = g.
+Proof.
+  unfold negzero. rewrite FloatAxioms.eqb_spec. intros He Hf Hg. apply FloatAxioms.Prim2SF_inj.
+  destruct (Prim2SF f) as [sf| sf| |sf mf ef], (Prim2SF g) as [sg|sg| |sg mg eg];
+    unfold SFeqb in He; cbn [SFcompare] in He; try discriminate.
+  all: try (destruct sf; discriminate). all: try (destruct sg; discriminate).
+  - destruct sf, sg; try discriminate; reflexivity.
+  - destruct sf, sg; try discriminate; reflexivity.
+  - destruct sf, sg; try discriminate.
+    + destruct (Z.compare ef eg) eqn:Ez; try discriminate. apply Z.compare_eq in Ez. subst.
+      destruct (Pos.compare_cont Eq mf mg) eqn:Em; try discriminate. apply Pos.compare_eq in Em. subst. reflexivity.
+    + destruct (Z.compare ef eg) eqn:Ez; try discriminate. apply Z.compare_eq in Ez. subst.
+      destruct (Pos.compare_cont Eq mf mg) eqn:Em; try discriminate. apply Pos.compare_eq in Em. subst. reflexivity.
+Qed.
+
+Lemma asm_ty_eqb_eq : forall a b, ty_eqb a b = true -> a = b.
+Proof.
+  fix IH 1. intros a b. destruct a, b; cbn [ty_eqb]; try discriminate; intros H; try reflexivity.
+  - apply kind_eqb_eq in H. subst. reflexivity.
+  - f_equal. apply IH. exact H.
+  - apply andb_prop in H. destruct H as [H1 H2]. f_equal; apply IH; assumption.
+  - apply String.eqb_eq in H. subst. reflexivity.
+  - f_equal. apply IH. exact H.
+  - apply andb_prop in H. destruct H as [H H3]. apply andb_prop in H. destruct H as [H1 H2].
+    assert (L : forall l1 l2,
+      (fix list_eqb (l1 l2 : list ty) {struct l1} : bool :=
+         match l1, l2 with
+         | [], [] => true
+         | x :: r1, y :: r2 => ty_eqb x y && list_eqb r1 r2
+         | _, _ => false
+         end) l1 l2 = true -> l1 = l2).
+    { induction l1 as [|x r1 IHl]; intros [|y r2] E; try discriminate; [reflexivity|].
+      apply andb_prop in E. destruct E as [E1 E2]. f_equal; [apply IH; exact E1|apply IHl; exact E2]. }
+    apply L in H1. apply L in H3. apply Bool.eqb_prop in H2. subst. reflexivity.
+  - apply andb_prop in H. destruct H as [H1 H2]. apply String.eqb_eq in H1. apply IH in H2. subst. reflexivity.
+  - apply String.eqb_eq in H. subst. reflexivity.
+Qed.
+
+Lemma num_go_eq_eq a b : num_go_eq a b = true -> key_exact (VNum a) = true -> key_exact (VNum b) = true -> a = b.
+Proof.
+  destruct a as [k z|k f], b as [k' z'|k' f']; cbn [num_go_eq key_exact]; try discriminate; intros H Ha Hb;
+    apply andb_prop in H; destruct H as [Hk H]; apply kind_eqb_eq in Hk; subst k'.
+  - apply Z.eqb_eq in H. subst. reflexivity.
+  - f_equal. apply float_eqb_eq; [exact H|apply negb_true_iff; exact Ha|apply negb_true_iff; exact Hb].
+Qed.
+
+(* two constants that the index map merges are identical unless a negative zero is involved *)
+Lemma vgo_eq_eq : forall w v, vgo_eq w v = true -> key_exact w = true -> key_exact v = true -> w = v.
+Proof.
+  fix IH 1. intros w v.
+  destruct w as [|wb|wn|ws|we wl|we|wk wt wm|wname wptr wfields|wt|wk wt|wname wt|wname wx|wd],
+           v as [|vb|vn|vs|ve vl|ve|vk vt vm|vname vptr vfields|vt|vk vt|vname vt|vname vx|vd];
+    cbn [vgo_eq]; try discriminate; intros H Hw Hv; try reflexivity.
+  - apply Bool.eqb_prop in H. subst. reflexivity.
+  - f_equal. apply num_go_eq_eq; assumption.
+  - apply String.eqb_eq in H. subst. reflexivity.
+  - destruct wptr; discriminate.
+  - destruct wptr; discriminate.
+  - destruct wptr; discriminate.
+  - destruct wptr; discriminate.
+  - destruct wptr; discriminate.
+  - destruct wptr; discriminate.
+  - destruct wptr; discriminate.
+  - destruct wptr; [discriminate|]. destruct vptr; [discriminate|].
+    apply andb_prop in H. destruct H as [Hn H]. apply String.eqb_eq in Hn. subst vname. f_equal.
+    cbn [key_exact] in Hw, Hv. revert vfields H Hw Hv.
+    induction wfields as [|[n1 x] r1 IHl]; intros [|[n2 y] r2] H Hw Hv; try discriminate; [reflexivity|].
+    apply andb_prop in H. destruct H as [H H3]. apply andb_prop in H. destruct H as [H1 H2].
+    apply andb_prop in Hw. destruct Hw as [Hw1 Hw2]. apply andb_prop in Hv. destruct Hv as [Hv1 Hv2].
+    apply String.eqb_eq in H1. subst n2. rewrite (IH x y H2 Hw1 Hv1). f_equal. apply IHl; assumption.
+  - destruct wptr; discriminate.
+  - destruct wptr; discriminate.
+  - destruct wptr; discriminate.
+  - destruct wptr; discriminate.
+  - destruct wptr; discriminate.
+  - apply asm_ty_eqb_eq in H. subst. reflexivity.
+  - apply andb_prop in H. destruct H as [Hn H]. apply String.eqb_eq in Hn. subst vname. f_equal.
+    cbn [key_exact] in Hw, Hv. apply IH; assumption.
+Qed.
+
+(* every pool entry is the constant of some item *)
+Lemma in_intern_unbounded d pool c : In d (intern_unbounded pool c) -> In d pool \/ d = c.
+Proof.
+  unfold intern_unbounded. destruct (const_class c); try destruct (pool_find c pool 0); intros H; auto;
+    apply in_app_or in H; destruct H as [H|[H|[]]]; auto.
+Qed.
+
+Lemma in_pool_of d : forall its pool, In d (pool_of its pool) ->
+  In d pool \/ exists it, In it its /\ item_const it = Some d.
+Proof.
+  induction its as [|it its IH]; intros pool H; cbn [pool_of] in H; [left; exact H|].
+  assert (K : forall c, item_const it = Some c -> In d (pool_of its (intern_unbounded pool c)) ->
+              In d pool \/ exists x, In x (it :: its) /\ item_const x = Some d).
+  { intros c Hc Hin. apply IH in Hin. destruct Hin as [Hin|[x [Hx Hd]]].
+    - apply in_intern_unbounded in Hin. destruct Hin as [Hin| ->]; [left; exact Hin|].
+      right. exists it. split; [left; reflexivity|exact Hc].
+    - right. exists x. split; [right; exact Hx|exact Hd]. }
+  assert (K0 : In d (pool_of its pool) -> In d pool \/ exists x, In x (it :: its) /\ item_const x = Some d).
+  { intros Hin. apply IH in Hin. destruct Hin as [Hin|[x [Hx Hd]]]; [left; exact Hin|].
+    right. exists x. split; [right; exact Hx|exact Hd]. }
+  destruct it as [i l|c]; [|apply (K c); [reflexivity|exact H]].
+  cbn [item_const] in K. destruct (ioperand i) as [|c|off|k|]; try (apply K0; exact H). apply (K c); [reflexivity|exact H].
+Qed.
+
+Lemma Forall2_eq_in {A} (R : A -> A -> Prop) : forall l l', Forall2 R l l' ->
+  (forall a b, In a l -> R a b -> a = b) -> l = l'.
+Proof.
+  induction 1 as [|a b r r' Hab _ IH]; intros Heq; [reflexivity|].
+  rewrite (Heq a b (or_introl eq_refl) Hab). f_equal. apply IH. intros x y Hx. apply Heq. right. exact Hx.
+Qed.
+
+Lemma items_keys_exact_in its : items_keys_exact its = true ->
+  forall it c, In it its -> item_const it = Some c -> const_exact c = true.
+Proof.
+  unfold items_keys_exact. intros H it c Hin Hc. rewrite forallb_forall in H. specialize (H it Hin). rewrite Hc in H. exact H.
+Qed.
+
+Lemma in_items_code i l : forall its, In (i, l) (items_code its) -> In (AIns i l) its.
+Proof.
+  induction its as [|[j m|c] its IH]; cbn [items_code]; intros H; [contradiction| |right; apply IH; exact H].
+  destruct H as [H|H]; [injection H as -> ->; left; reflexivity|right; apply IH; exact H].
+Qed.
+
+(* exactness: without a negative zero among the constants, decode returns the code itself *)
+Theorem decode_assemble_items_exact its p :
+  assemble_items its = Some p -> items_keys_exact its = true -> decode p = DOk (items_code its).
+Proof.
+  intros Ha Hex. destruct (decode_assemble_itemsP _ _ Ha) as [C' [Hd Hs]].
+  rewrite Hd. f_equal. symmetry. eapply Forall2_eq_in; [exact Hs|].
+  intros [i l] [i' l'] Hin [Hi Hl]. cbn [fst snd] in Hi, Hl. subst l'.
+  destruct Hi as [->|[v [w [-> [-> [He Hp]]]]]]; [reflexivity|].
+  assert (Hpool : p_consts p = pool_of its []).
+  { unfold assemble_items in Ha. destruct (asm its [] 0) as [[[bs pool] locs]|] eqn:A; [|discriminate].
+    injection Ha as <-. apply asm_some in A. cbn [p_consts]. tauto. }
+  rewrite Hpool in Hp. apply in_pool_of in Hp. destruct Hp as [[]|[x [Hx Hc]]].
+  pose proof (items_keys_exact_in _ Hex x _ Hx Hc) as Hw.
+  pose proof (items_keys_exact_in _ Hex (AIns (IPush v) l) (CVal v) (in_items_code _ _ _ Hin) eq_refl) as Hv.
+  cbn [const_exact] in Hw, Hv. rewrite (vgo_eq_eq w v He Hw Hv). reflexivity.
+Qed.
+
+Theorem decode_assemble_exact C p :
+  assemble C = Some p -> code_keys_exact C = true -> decode p = DOk C.
+Proof.
+  unfold assemble, code_keys_exact. intros Ha Hex. rewrite (decode_assemble_items_exact _ _ Ha Hex). rewrite items_code_of_code. reflexivity.
+Qed.
+
+(* the unrestricted statement is false: 0.0 and -0.0 are one constant for makeConstant *)
+Definition decode_assemble_exact_full_statement : Prop :=
+  forall C p, assemble C = Some p -> decode p = DOk C.
+
+Definition negzero_code : code :=
+  [(IPush (VNum (NFlt KF64 0%float)), noloc); (IPush (VNum (NFlt KF64 (-0)%float)), noloc)].
+
+Lemma negzero_merges :
+  exists p, assemble negzero_code = Some p /\
+            decode p = DOk [(IPush (VNum (NFlt KF64 0%float)), noloc); (IPush (VNum (NFlt KF64 0%float)), noloc)].
+Proof. eexists. split; vm_compute; reflexivity. Qed.
+
+Theorem decode_assemble_exact_refuted : ~ decode_assemble_exact_full_statement.
+Proof.
+  intros H. destruct negzero_merges as [p [Ha Hd]]. specialize (H _ _ Ha). rewrite Hd in H.
+  injection H as H. apply (f_equal (fun f => PrimFloat.ltb (1 / f) 0)) in H. vm_compute in H. discriminate.
+Qed.
+
+(* ================================================================== the byte-level Compile *)
+Theorem compile_bytes_decodes mapenv c e p : compile_bytes mapenv c e = Some p ->
+  exists C', decode p = DOk C' /\ code_sim (compile_program mapenv c e) C'.
+Proof.
+  unfold compile_bytes. destruct (compilable e); [|discriminate]. intros H.
+  apply decode_assemble_items in H. rewrite items_code_compile_program in H. exact H.
+Qed.
+
+Theorem compile_bytes_exact mapenv c e p : compile_bytes mapenv c e = Some p ->
+  items_keys_exact (compile_items_program mapenv c e) = true -> decode p = DOk (compile_program mapenv c e).
+Proof.
+  unfold compile_bytes. destruct (compilable e); [|discriminate]. intros H Hex.
+  rewrite (decode_assemble_items_exact _ _ H Hex), items_code_compile_program. reflexivity.
+Qed.
+
+Theorem compile_bytes_wf mapenv c e p : compile_bytes mapenv c e = Some p -> wf_progb p = true.
+Proof.
+  unfold compile_bytes. destruct (compilable e) eqn:Hc; [|discriminate]. intros H.
+  eapply assemble_items_wf; [exact H|]. rewrite items_code_compile_program. apply compile_program_wf. exact Hc.
+Qed.
+
+Theorem compile_bytes_fails_iff mapenv c e :
+  compile_bytes mapenv c e = None <->
+  compilable e = false \/ asm_fail_reason (compile_items_program mapenv c e) [].
+Proof.
+  unfold compile_bytes. destruct (compilable e).
+  - rewrite assemble_items_fails_iff. split; [intros H; right; exact H|intros [H|H]; [discriminate|exact H]].
+  - split; [intros _; left; reflexivity|reflexivity].
 Qed.
